@@ -42,13 +42,47 @@ func mix(a, b, k int) uint64 {
 const (
 	nPred  = 7
 	nMap   = 3
-	nJoin  = 5
+	nJoin  = 8
 	nPPred = 7
 	nPMap  = 3
-	nPJoin = 5
-	nToSeq = 5
-	nFromS = 4
+	nPJoin = 7
+	nToSeq = 7
+	nFromS = 6
 )
+
+// raw material of the "derived inner sequence" families: the flat-map function returns TakeWhile / Filter / Map
+// over this slice (nil for some arguments, and not prefix-closed for the predicate v < 500)
+func rawInner(x int) []int {
+	switch x % 4 {
+	case 0:
+		return nil
+	case 1:
+		return []int{x % 400, 600 + x%300, (x + 1) % 400}
+	case 2:
+		return []int{700, x % 400}
+	}
+	return []int{x % 400, (x + 2) % 400, 800, (x + 3) % 400, 900}
+}
+func small(v int) bool { return v < 500 }
+func takeWhileList(xs []int, p func(int) bool) []int {
+	var out []int
+	for _, v := range xs {
+		if !p(v) {
+			break
+		}
+		out = append(out, v)
+	}
+	return out
+}
+func filterList(xs []int, p func(int) bool) []int {
+	var out []int
+	for _, v := range xs {
+		if p(v) {
+			out = append(out, v)
+		}
+	}
+	return out
+}
 
 func pred(f, x int) bool {
 	switch f {
@@ -93,8 +127,18 @@ func joinf(f, x int) []int {
 			return nil
 		}
 		return []int{x, x}
-	default:
+	case 4:
 		return []int{(x * 5) % 997, (x*5 + 1) % 997, (x*5 + 2) % 997}
+	case 5: // built as TakeWhile(FromSlice(raw), small)
+		return takeWhileList(rawInner(x), small)
+	case 6: // built as Filter(FromSlice(raw), small)
+		return filterList(rawInner(x), small)
+	default: // built as Map(TakeWhile(FromSlice(raw), small), +1)
+		out := takeWhileList(rawInner(x), small)
+		for i := range out {
+			out[i]++
+		}
+		return out
 	}
 }
 func ppred(f, k, v int) bool {
@@ -138,8 +182,25 @@ func pjoinf(f, k, v int) []kv {
 		return []kv{{k, v}, {k + 500, (v + 1) % 997}}
 	case 3:
 		return []kv{{2000 + v, k % 997}} // deliberately crosses key and value
-	default:
+	case 4:
 		return []kv{{k, v}, {k, (v + 1) % 997}, {k + 1, (v + 2) % 997}}[:int(mix(k, v, 9)%4)]
+	case 5: // built as pair.TakeWhile(pairs, value < 500)
+		var out []kv
+		for _, p := range innerPairs(k + v) {
+			if p.V >= 500 {
+				break
+			}
+			out = append(out, p)
+		}
+		return out
+	default: // built as pair.Filter(pairs, value < 500)
+		var out []kv
+		for _, p := range innerPairs(k + v) {
+			if p.V < 500 {
+				out = append(out, p)
+			}
+		}
+		return out
 	}
 }
 func toseqf(f, k, v int) []int {
@@ -155,8 +216,12 @@ func toseqf(f, k, v int) []int {
 			return nil
 		}
 		return []int{v, (v + 1) % 997}
-	default:
+	case 4:
 		return []int{int(mix(k, v, 3) % 997)}
+	case 5:
+		return takeWhileList(rawInner(k+v), small)
+	default:
+		return filterList(rawInner(k+v), small)
 	}
 }
 func fromseqf(f, x int) []kv {
@@ -170,8 +235,25 @@ func fromseqf(f, x int) []kv {
 			return nil
 		}
 		return []kv{{1000 + x, x}, {1500 + x, (x + 1) % 997}}
-	default:
+	case 3:
 		return []kv{{3000 + x%7, (x * 11) % 997}}
+	case 4:
+		var out []kv
+		for _, p := range innerPairs(x) {
+			if p.V >= 500 {
+				break
+			}
+			out = append(out, p)
+		}
+		return out
+	default:
+		var out []kv
+		for _, p := range innerPairs(x) {
+			if p.V < 500 {
+				out = append(out, p)
+			}
+		}
+		return out
 	}
 }
 
@@ -335,6 +417,29 @@ func (e *evalCtx) listP(n *node) []kv {
 
 func sliceSeq(xs []int) seq.Seq[int] { return seq.FromSlice(slices.Clone(xs)) }
 
+// innerSeq builds what the flat-map function of family f returns for x
+func innerSeq(f, x int) seq.Seq[int] {
+	switch f {
+	case 5:
+		return seq.TakeWhile(sliceSeq(rawInner(x)), small)
+	case 6:
+		return seq.Filter(sliceSeq(rawInner(x)), small)
+	case 7:
+		return seq.Map(seq.TakeWhile(sliceSeq(rawInner(x)), small), func(v int) int { return v + 1 })
+	}
+	return sliceSeq(joinf(f, x))
+}
+
+func innerPairs(x int) []kv {
+	raw := rawInner(x)
+	out := make([]kv, len(raw))
+	for i, v := range raw {
+		out[i] = kv{2000 + i, v}
+	}
+	return out
+}
+func ksmall(_ int, v int) bool { return v < 500 }
+
 func pairSeq(ps []kv) pair.Seq[int, int] {
 	var s pair.Seq[int, int]
 	for _, p := range ps {
@@ -402,9 +507,18 @@ func (b *buildCtx) buildS(n *node) seq.Seq[int] {
 		r := b.buildS(n.Kids[1])
 		return seq.Plus(l, r)
 	case "join":
-		return seq.Join(b.buildS(n.Kids[0]), func(x int) seq.Seq[int] { b.see(n.id, x, 0); return sliceSeq(joinf(n.F, x)) })
+		return seq.Join(b.buildS(n.Kids[0]), func(x int) seq.Seq[int] { b.see(n.id, x, 0); return innerSeq(n.F, x) })
 	case "toseq":
-		return pair.ToSeq(b.buildP(n.Kids[0]), func(k, v int) seq.Seq[int] { b.see(n.id, k, v); return sliceSeq(toseqf(n.F, k, v)) })
+		return pair.ToSeq(b.buildP(n.Kids[0]), func(k, v int) seq.Seq[int] {
+			b.see(n.id, k, v)
+			switch n.F {
+			case 5:
+				return seq.TakeWhile(sliceSeq(rawInner(k+v)), small)
+			case 6:
+				return seq.Filter(sliceSeq(rawInner(k+v)), small)
+			}
+			return sliceSeq(toseqf(n.F, k, v))
+		})
 	}
 	panic("buildS " + n.Op)
 }
@@ -426,9 +540,27 @@ func (b *buildCtx) buildP(n *node) pair.Seq[int, int] {
 		r := b.buildP(n.Kids[1])
 		return pair.Plus(l, r)
 	case "pjoin":
-		return pair.Join(b.buildP(n.Kids[0]), func(k, v int) pair.Seq[int, int] { b.see(n.id, k, v); return pairSeq(pjoinf(n.F, k, v)) })
+		return pair.Join(b.buildP(n.Kids[0]), func(k, v int) pair.Seq[int, int] {
+			b.see(n.id, k, v)
+			switch n.F {
+			case 5:
+				return pair.TakeWhile(pairSeq(innerPairs(k+v)), ksmall)
+			case 6:
+				return pair.Filter(pairSeq(innerPairs(k+v)), ksmall)
+			}
+			return pairSeq(pjoinf(n.F, k, v))
+		})
 	case "fromseq":
-		return pair.FromSeq(b.buildS(n.Kids[0]), func(x int) pair.Seq[int, int] { b.see(n.id, x, 0); return pairSeq(fromseqf(n.F, x)) })
+		return pair.FromSeq(b.buildS(n.Kids[0]), func(x int) pair.Seq[int, int] {
+			b.see(n.id, x, 0)
+			switch n.F {
+			case 4:
+				return pair.TakeWhile(pairSeq(innerPairs(x)), ksmall)
+			case 5:
+				return pair.Filter(pairSeq(innerPairs(x)), ksmall)
+			}
+			return pairSeq(fromseqf(n.F, x))
+		})
 	}
 	panic("buildP " + n.Op)
 }
@@ -795,7 +927,7 @@ func randP(r rnd, d int, next *int) *node {
 	case 6:
 		return &node{Op: "pjoin", F: r.IntN(nPJoin), Kids: []*node{randP(r, d-1, next)}}
 	default:
-		return &node{Op: "fromseq", F: 1 + r.IntN(nFromS-1), Kids: []*node{randS(r, d-1, true, next)}}
+		return &node{Op: "fromseq", F: r.IntN(nFromS), Kids: []*node{randS(r, d-1, true, next)}}
 	}
 }
 
@@ -828,16 +960,16 @@ func main() {
 	depth := 3
 	if !pairs {
 		if common.Thorough() {
-			a = alphabet{preds: []int{0, 1, 2, 3, 4, 5, 6}, maps: []int{0, 2}, joins: []int{0, 1, 2, 3, 4}, leaves: 6}
+			a = alphabet{preds: []int{0, 1, 2, 3, 4, 5, 6}, maps: []int{0, 2}, joins: []int{0, 1, 2, 3, 4, 5, 6, 7}, leaves: 6}
 		} else {
-			a = alphabet{preds: []int{0, 1, 2, 4}, maps: []int{0}, joins: []int{2, 3, 4}, leaves: 4}
+			a = alphabet{preds: []int{0, 1, 2, 4}, maps: []int{0}, joins: []int{2, 3, 4, 5, 6}, leaves: 4}
 		}
 	} else {
 		if common.Thorough() {
-			a = alphabet{preds: []int{2, 4}, maps: []int{0}, joins: []int{2}, ppreds: []int{1, 3, 4, 5}, pmaps: []int{0}, pjoins: []int{2, 3, 4}, toseqs: []int{2, 3}, fromseqs: []int{1, 2}, leaves: 3}
+			a = alphabet{preds: []int{2, 4}, maps: []int{0}, joins: []int{2}, ppreds: []int{1, 3, 4, 5}, pmaps: []int{0}, pjoins: []int{2, 3, 4, 5}, toseqs: []int{2, 3, 5}, fromseqs: []int{1, 2, 4}, leaves: 3}
 			depth = 4
 		} else {
-			a = alphabet{preds: []int{1, 2, 4}, maps: []int{0}, joins: []int{2, 4}, ppreds: []int{0, 1, 2, 3, 4, 5}, pmaps: []int{0, 2}, pjoins: []int{0, 1, 2, 3, 4}, toseqs: []int{0, 1, 2, 3, 4}, fromseqs: []int{0, 1, 2, 3}, leaves: 4}
+			a = alphabet{preds: []int{1, 2, 4}, maps: []int{0}, joins: []int{2, 4}, ppreds: []int{0, 1, 2, 3, 4, 5}, pmaps: []int{0, 2}, pjoins: []int{0, 1, 2, 3, 4, 5, 6}, toseqs: []int{0, 1, 2, 3, 4, 5, 6}, fromseqs: []int{0, 1, 2, 3, 4, 5}, leaves: 4}
 			depth = 3
 		}
 	}
